@@ -109,6 +109,18 @@ pub fn lib_entries(rng: &mut (impl RngCore + CryptoRng), thorough: bool) -> Resu
     if thorough {
         lib_entries_n::<8>(rng, &mut out)?;
         lib_entries_n::<13>(rng, &mut out)?;
+    } else {
+        // a few wide instantiations also in the quick tier: arrays of more than a kilobyte take other
+        // paths through allocators and codecs than the small ones
+        let kp = KeyPair::<13>::new(rng);
+        out.push(entry("zkchannels-crypto", "PublicKey<13>", &kp.public_key().clone())?);
+        out.push(entry("zkchannels-crypto", "PedersenParameters<G1,13>", &PedersenParameters::<G1Projective, 13>::new(rng))?);
+        out.push(entry("zkchannels-crypto", "PedersenParameters<G2,13>", &PedersenParameters::<G2Projective, 13>::new(rng))?);
+        let mut wide = [Scalar::zero(); 40];
+        for x in wide.iter_mut() {
+            *x = Scalar::random(&mut *rng);
+        }
+        out.push(entry("codec", "codec Box<[Scalar;40]>", &Codec(Box::new(wide)))?);
     }
     // non-generic library types
     let kp = KeyPair::<2>::new(rng);
